@@ -9,6 +9,7 @@ import ZkVerif.Model.Transcript
 import ZkVerif.Model.Merchant
 import ZkVerif.Model.Abacus
 import ZkVerif.Model.Customer
+import ZkVerif.Model.Sha3
 namespace ZkVerif.Ops
 open ZkVerif ZkVerif.Proto
 
@@ -302,6 +303,12 @@ def dispatch (args : List String) : Option String :=
   | ["raw-scalar", d] => do
       let bs ← parseBytes d
       if bs.length = 32 then pure (tS (Fq.ofNat (rawScalar q bs))) else none
+  -- the executed hash: SHA3-256 of the bytes (`Context::new`, `ChannelId::new`, revocation locks) …
+  | ["sha3", d] => do pure (tX (Sha3.sha3_256 (← parseBytes d)))
+  -- … and the whole of `ChallengeBuilder::finish`: hashed bytes -> digest -> challenge (every recorded challenge)
+  | ["sha3-challenge", d] => do
+      let dg := Sha3.sha3_256 (← parseBytes d)
+      pure (join [tX dg, tS (Fq.ofNat (rawScalar q dg))])
   -- zkAbacus establish proofs (C01, C06, C12)
   | ["est-transcript", g1, y1s, g2, x2, y2s, close, cid, cb, mb, k0, k1, k3, k4, sC, sT, szbf, szs, cC, cT, czbf, czs, ctx, legacy] => do
       let pk := mkPk (← parseFq g1) (← parseList y1s) (← parseFq g2) (← parseFq x2) (← parseList y2s)
@@ -367,6 +374,16 @@ def dispatch (args : List String) : Option String :=
       let ds ← (digests.splitOn ",").mapM parseBytes
       let Hb : List UInt8 → List UInt8 := fun bs => ds.getD (bs.getLastD 0).toNat []
       match revPairNew Hb decFq encFq (← parseStream stream) with
+      | some (p, rest) => pure (join [tRevPair p, tN rest.length])
+      | none => pure (tV "none")
+  -- the same two with the executed hash: the driver computes SHA3(secret ‖ index) itself, nothing is supplied
+  | ["revpair-decode-sha3", lock, secret, index] => do
+      match revPairDecode Sha3.sha3_256 decFq encFq (← parseFq lock) (← parseFq secret) (← parseHex index) with
+      | .ok p => pure (tRevPair p)
+      | .error .invalidSecret => pure (tV "invalid-secret")
+      | .error .mismatchedPair => pure (tV "mismatched-pair")
+  | ["revpair-new-sha3", stream] => do
+      match revPairNew Sha3.sha3_256 decFq encFq (← parseStream stream) with
       | some (p, rest) => pure (join [tRevPair p, tN rest.length])
       | none => pure (tV "none")
   | ["ped-gen1", n, stream] => do
